@@ -558,7 +558,7 @@ pub fn plan_for(id: &str, tier: &str) -> Option<Plan> {
             p.n_random = n(200, 5000);
             p.long = (n(2, 60), n(500, 2000));
             p.required = vec!["AddSnapshot|", "|conflict", "|accepted"];
-            p.rule = "every accepted (version, parent, payload) is re-read through GetChildVersion after later operations (a random third after every operation, all of them every 10 operations, after every reopen and at the end), across snapshots, rejected requests, other clients' activity and reopen. distinct_nontrivial = distinct situations that occurred while accepted versions were being re-read.";
+            p.rule = "every accepted (version, parent, payload) is re-read through GetChildVersion after later operations (a random third after every operation, all of them every 10 operations, after every reopen and at the end), across snapshots, rejected requests, other clients' activity and reopen. distinct_nontrivial = distinct situations that occurred while accepted versions were being re-read. Concurrent part: uncontrolled stress (6-12 threads on one storage / one SQLite object per thread / sockets) after which every version whose acceptance was acknowledged must still be served with its parent and payload.";
         }
         "C08" => {
             p.property = "C08";
@@ -599,7 +599,7 @@ pub fn plan_for(id: &str, tier: &str) -> Option<Plan> {
             p.profile.w_kind = [45, 5, 35, 10, 5];
             p.profile.valid_add_pct = 80;
             p.required = vec!["getsnapshot:new", "getsnapshot:kept", "getsnapshot:none"];
-            p.rule = "after every AddVersion/AddSnapshot (accepted or declined) the snapshot is fetched: it must be the previously returned pair or exactly the pair just uploaded (id and bytes of one upload; every upload has distinct bytes), and following child versions from its id must reach the latest version without gone.";
+            p.rule = "after every AddVersion/AddSnapshot (accepted or declined) the snapshot is fetched: it must be the previously returned pair or exactly the pair just uploaded (id and bytes of one upload; every upload has distinct bytes), and following child versions from its id must reach the latest version without gone. Concurrent part: every E2 scenario that contains an AddSnapshot on an existing chain (AddSnapshot overlapping GetSnapshot / AddVersion / AddSnapshot, pairs and triples, three backends, both entries) is explored under the controlled scheduler with the differential linearizability oracle, so a snapshot read is always one whole generation consistent with real-time order (counters executions_with_overlapping_requests, lock_wait_probes_blocked).";
         }
         "C13" => {
             p.property = "C13";
